@@ -39,7 +39,15 @@ VARIANTS = {'vmonbk_a': (True, True), 'vmonbk_b': (True, False), 'vmonbk_c': (Fa
 ENVV = ('MIDO_BACKEND', 'MIDO_DEFAULT_INPUT', 'MIDO_DEFAULT_OUTPUT', 'MIDO_DEFAULT_IOPORT')
 
 LOGMOD = '''
+import threading
 LOG = []
+GATE = threading.Event()
+GATE_REACHED = threading.Event()
+'''
+SLOW_HEAD = '''
+import vmonbk_log as _L
+_L.GATE_REACHED.set()
+_L.GATE.wait(10)
 '''
 TEMPLATE = '''
 import collections
@@ -106,6 +114,8 @@ def make_modules(d):
     for name, (io, gd) in VARIANTS.items():
         with open(os.path.join(d, name + '.py'), 'w') as f:
             f.write(TEMPLATE.format(ioport=IOPORT if io else '', getdev=GETDEV if gd else ''))
+    with open(os.path.join(d, 'vmonbk_slow.py'), 'w') as f:
+        f.write(SLOW_HEAD + TEMPLATE.format(ioport=IOPORT, getdev=GETDEV))
 
 
 def purge():
@@ -296,6 +306,50 @@ def extra_sequences(ctx, LOG):
     return n
 
 
+def concurrent_first_use(ctx, LOG):
+    """Two Backend objects for one module; the second is used while the first is still inside the
+    module's import.  It must wait for the import and then see the complete module."""
+    import threading
+    import vmonbk_log as L
+    case = {'kind': 'concurrent-import'}
+    sys.modules.pop('vmonbk_slow', None)
+    L.GATE.clear()
+    L.GATE_REACHED.clear()
+    out = {}
+
+    def first():
+        try:
+            out['a'] = type(Backend('vmonbk_slow').open_input('x')).__name__
+        except Exception as exc:
+            out['a'] = repr(exc)
+
+    def second():
+        try:
+            b = Backend('vmonbk_slow/API2')
+            names = b.get_ioport_names()
+            io = b.open_ioport('y')
+            out['b'] = (names, type(io).__name__, type(io).__module__)
+            if isinstance(io, ports.IOPort):
+                io.closed = True
+        except Exception as exc:
+            out['b'] = repr(exc)
+    ta, tb = threading.Thread(target=first, daemon=True), threading.Thread(target=second, daemon=True)
+    ta.start()
+    if not L.GATE_REACHED.wait(10):
+        ctx.undecided('concurrent import: the module body was never entered')
+        return 0
+    tb.start()
+    tb.join(0.3)                       # give the second user the chance to run ahead (it must not)
+    L.GATE.set()
+    ta.join(10)
+    tb.join(10)
+    want_b = (model_names('ioport', True), 'IOPort', 'vmonbk_slow')
+    ctx.check('backend module lazily imported', out.get('a') == 'Input' and out.get('b') == want_b,
+              'half-imported-module-used', case, lambda: {'first': out.get('a'), 'second': out.get('b'), 'want_second': want_b})
+    sys.modules.pop('vmonbk_slow', None)
+    return 1
+
+
 def set_backend_sequences(ctx, LOG):
     """set_backend rebinds open_*/get_* and mido.backend; same module, different API included."""
     saved_env = {k: os.environ.get(k) for k in ENVV}
@@ -411,6 +465,9 @@ def run(ctx):
                 k = extra_sequences(ctx, LOG)
                 ctx.nontrivial(None, k)
                 n += k
+                k = concurrent_first_use(ctx, LOG)
+                ctx.nontrivial(None, k)
+                n += k
         finally:
             sys.path.remove(d)
             purge()
@@ -430,6 +487,7 @@ def replay(ctx, case):
             else:
                 set_backend_sequences(ctx, vmonbk_log.LOG)
                 extra_sequences(ctx, vmonbk_log.LOG)
+                concurrent_first_use(ctx, vmonbk_log.LOG)
         finally:
             sys.path.remove(d)
             purge()
